@@ -92,6 +92,21 @@ PendingFrom(ms, known, all) ==
                THEN <<mu>> ELSE <<>>) \o PendingFrom(Tail(ms), known, all)
 Pending(ms) == PendingFrom(ms, DOMAIN Sig0, ms)
 
+(* WHY the perturbed evolution cannot be simulated, taking its mutations one at a time: the
+   property lists the reasons for which an evolution must be rejected before any SQL runs *)
+FailReason(mu, sig) ==
+    LET mname == IF mu.k = "RenM" THEN mu.om ELSE mu.m IN
+    IF IsModelMutation(mu) /\ mname \notin DOMAIN sig THEN "missing-model"
+    ELSE IF mu.k \in {"Chg", "Del"} /\ mu.f \notin DOMAIN sig[mu.m].fields THEN "missing-field"
+    ELSE IF mu.k = "RenF" /\ mu.of \notin DOMAIN sig[mu.m].fields THEN "missing-field"
+    ELSE IF mu.k = "Add" /\ mu.f \in DOMAIN sig[mu.m].fields THEN "add-existing"
+    ELSE IF mu.k \in {"Add", "Chg"} THEN "non-null-without-initial"
+    ELSE "other"
+RECURSIVE FirstFail(_, _)
+FirstFail(ms, sig) == IF ms = <<>> THEN "none"
+                      ELSE LET r == Sim(Head(ms), sig)
+                           IN IF ~r.ok THEN FailReason(Head(ms), sig) ELSE FirstFail(Tail(ms), r.sig)
+
 (* what the real pipeline does with the perturbed evolution *)
 PRun == TwoPass(Pending(pert), Sig0)
 Prediction == IF ~PRun.ok \/ MetaNamesMissing(Pending(pert), Sig0) THEN "sim-fails"
@@ -111,6 +126,7 @@ PEmit == (EmitRecords /\ kind # "") =>
            PrintT(<<"REC", ToJson([seq |-> seq, start |-> StartId, final |-> cur,
                                     pert |-> pert, kind |-> kind,
                                     prediction |-> Prediction, control |-> Control,
+                                    reason |-> FirstFail(Pending(pert), Sig0),
                                     \* mutations left after the changed-models filter: with
                                     \* none left the task has nothing to simulate at all
                                     npending |-> Len(Pending(pert))])>>)
